@@ -157,6 +157,57 @@ Definition listed_probe (ck : str) : option str :=
   | _ => Some ck
   end.
 
+(* ---- the list the API has ACKNOWLEDGED, as names (Spec.v's vocabulary): what the calls
+   and their return values say is listed, without looking at the memory.  An accepted Set
+   lists its key (a wildcard entry when the key reads "*.suffix"), a Remove / RemoveBatch
+   un-lists the keys it names, a SetBatch that counted every key lists them all; a SetBatch
+   that counted only some (the others were refused: whitelisted, '#', white space) lists an
+   unknown part of its keys — [lo] gets none of them, [hi] all of them.  The statement
+   "blocked exactly when listed" then reads: what [lo] blocks the memory blocks, and what
+   the memory blocks [hi] blocks (decided on every entry of the three lists and a fresh
+   child of it, as in Spec.spec_equiv_n). *)
+Definition addn (n : name) (l : list name) : list name := if memn n l then l else l ++ [n].
+Definition deln (n : name) (l : list name) : list name := filter (fun x => negb (name_eqb n x)) l.
+Definition wild_form (ck : str) : bool := has_prefix [42; 46] ck.
+Definition ackl := (list name * list name)%type.
+Definition ack_set (k : str) (L : ackl) : ackl :=
+  let ck := canonical k in
+  if wild_form ck then (fst L, addn (name_of (skipn 2 ck)) (snd L))
+  else (addn (name_of ck) (fst L), snd L).
+Definition ack_remove (k : str) (L : ackl) : ackl :=
+  let ck := canonical k in
+  if memn (name_of ck) (fst L) then (deln (name_of ck) (fst L), snd L)
+  else if wild_form ck then (fst L, deln (name_of (skipn 2 ck)) (snd L))
+  else L.
+Definition ack_step (a : ackl * ackl) (p : op * N) : ackl * ackl :=
+  let '(lo, hi) := a in
+  match p with
+  | (OpSet k, r) => if r =? 0 then a else (ack_set k lo, ack_set k hi)
+  | (OpRemove k, _) => (ack_remove k lo, ack_remove k hi)
+  | (OpSetBatch ks, r) =>
+      if r =? 0 then a
+      else if r =? N.of_nat (Datatypes.length ks)
+           then (fold_left (fun L k => ack_set k L) ks lo, fold_left (fun L k => ack_set k L) ks hi)
+           else (lo, fold_left (fun L k => ack_set k L) ks hi)
+  | (OpRemoveBatch ks, _) =>
+      (fold_left (fun L k => ack_remove k L) ks lo, fold_left (fun L k => ack_remove k L) ks hi)
+  end.
+Definition ack_lists (m0 wild0 : list str) (ops : list (op * N)) : ackl * ackl :=
+  let L0 := (names_of m0, names_of wild0) in fold_left ack_step ops (L0, L0).
+(* [both] = false: only "what is acknowledged is blocked" (histories in which a refresh
+   brings names nobody listed through the API) *)
+Definition ack_matched (both : bool) (m0 wild0 w : list str) (ops : list (op * N)) (m1 wild1 : list str) : bool :=
+  let '(lo, hi) := ack_lists m0 wild0 ops in
+  let Wl := names_of w in
+  let M1 := names_of m1 in
+  let W1 := names_of wild1 in
+  let es := fst lo ++ snd lo ++ fst hi ++ snd hi ++ M1 ++ W1 in
+  forallb (fun n => negb (existsb (str_eqb zlabel) n)) (es ++ Wl) &&
+  forallb (fun q =>
+             implb (spec_blocked_b (fst lo) (snd lo) Wl q) (spec_blocked_b M1 W1 Wl q) &&
+             (negb both || implb (spec_blocked_b M1 W1 Wl q) (spec_blocked_b (fst hi) (snd hi) Wl q)))
+          (es ++ List.map (cons zlabel) es).
+
 (* the file's lines are in the memory, and every memory entry is a line of the file or a
    name of one of the downloaded lists *)
 Definition file_plus_downloads (downloads : list str) (m1 wild1 : list str) (f : str) : bool :=
@@ -316,7 +367,9 @@ Definition spec_case (c : case) : bool :=
       end &&
       (* what Set accepted and nobody removed is blocked *)
       forallb (fun ck => match listed_probe ck with Some q => spec_blocks m1 wild1 w q | None => true end)
-              (set_survives ops)
+              (set_survives ops) &&
+      (* the list that is matched is the list the calls have acknowledged *)
+      ack_matched true m0 wild0 w ops m1 wild1
   | CaseConc m0 wild0 w threads m1 wild1 file =>
       match file with
       | Some f => file_is_snapshot m1 wild1 f
@@ -348,7 +401,8 @@ Definition spec_case (c : case) : bool :=
       end &&
       (* a refresh never unblocks: what Set accepted and nobody removed is blocked *)
       forallb (fun ck => match listed_probe ck with Some q => spec_blocks m1 wild1 w q | None => true end)
-              (set_survives ops)
+              (set_survives ops) &&
+      ack_matched false m0 wild0 w ops m1 wild1
   | CaseReload whitelist blocklist files mem_m mem_wild re_m re_wild re_w =>
       (* the reloaded list blocks exactly the names the memory that was persisted blocks *)
       (* the configured whitelist, as names: how the list spells its keys is its own business *)
